@@ -33,10 +33,21 @@ func (r RawTime) Value() (t time.Time, valid bool) {
 		return
 	}
 	parsedTime, err := http.ParseTime(string(r))
-	if err != nil {
+	if err != nil || !isGMT(parsedTime) {
 		return
 	}
 	return parsedTime, true
+}
+
+// isGMT reports whether a parsed HTTP-date was given in GMT, as every
+// HTTP-date must be (RFC 9110 §5.6.7). The obsolete rfc850 layout that
+// http.ParseTime tries accepts any zone abbreviation and resolves it against
+// the process's local zone (or as offset 0 when it does not know it), so that
+// "Saturday, 01-Jan-00 02:00:00 CEST" would be read as some instant that
+// depends on where the process runs; such a value is not a valid HTTP-date.
+func isGMT(t time.Time) bool {
+	name, offset := t.Zone()
+	return offset == 0 && (name == "GMT" || name == "UTC")
 }
 
 // RawDeltaSeconds is a string that represents a delta time in seconds,
